@@ -378,7 +378,12 @@ REG['C16'] = {
     'technique': 'Verus on the unit conversion of all four shipped get_info bodies (Default, China95, LunarSect1, LunarSect2), on decade / yearly fortunes and AbstractChildLimitProvider::next (day-overflow loop) extracted verbatim; seeded execution of ChildLimit / fortunes for all four strategies',
     'level_text': 'Deductive part (Verus, real code): seconds -> (years, months, days, hours, minutes) at 3 d = 1 y, 1 d = 4 mo, 1 h = 5 d, 1 min = 2 h, 1 s = 2 min exactly (259200*Y + 21600*M + 720*D + 30*H + Mi/2 == seconds, field ranges), the minute-based forms of China95 (4320*Y + 360*M + 12*D <= minutes < +12) and LunarSect2 (4320*Y + 360*M + 12*D + H/2 == minutes), the double-hour form of LunarSect1 (360*Y + 30*M + D == 10 * double-hours between the two instants counted by day and double-hour index); decade fortunes step the month pillar by +-(i+1) with start ages 10 apart, yearly fortunes step the hour pillar by +-age from the year the limit ends; the calendar addition carries seconds->minutes->hours->days and overflows days month by month, terminating with a day inside the month. Leaf part (bounded, seeded): direction rule, governing Jie, end == birth + units, never before birth / at most 11 years, decade and yearly fortunes, the three other shipped strategies.',
     'level_note': 'ChildLimit::from_solar_time touches the provider mutex, f64 term instants and name-table pillars: executed on 7 births x 2 genders per year (seed-rotated), not proved; callee contracts: SolarMonth::next/get_day_count (C11/C01), SolarTime::subtract (C12)',
-    'functions': ['DefaultChildLimitProvider::get_info', 'China95ChildLimitProvider::get_info', 'LunarSect1ChildLimitProvider::get_info', 'LunarSect2ChildLimitProvider::get_info', 'AbstractChildLimitProvider::next', 'DecadeFortune::new / next / get_start_age / get_end_age / get_start_sixty_cycle_year / get_end_sixty_cycle_year / get_sixty_cycle / get_start_fortune', 'Fortune::new / next / get_age / get_sixty_cycle_year / get_sixty_cycle', 'ChildLimit::from_solar_time (leaf)'],
+    'functions': ['DefaultChildLimitProvider::get_info', 'China95ChildLimitProvider::get_info', 'LunarSect1ChildLimitProvider::get_info', 'LunarSect2ChildLimitProvider::get_info', 'AbstractChildLimitProvider::next', 'DecadeFortune::new / next / get_start_age / get_end_age / get_start_sixty_cycle_year / get_end_sixty_cycle_year / get_sixty_cycle / get_start_fortune', 'Fortune::new / next / get_age / get_sixty_cycle_year / get_sixty_cycle', 'ChildLimit::from_solar_time (K, thorough tier; leaf in the quick tier)'],
+    'harness_timeout': {'quick': '10m', 'thorough': '40m'},
+    'K': [
+        dict(id='c16_k_direction', prefix=True, min_count=4, thorough_only=True, fn='ChildLimit::from_solar_time',
+             clause='real body incl. the strategy lock and dynamic dispatch: luck runs forward exactly for Yang-year men and Yin-year women; the Jie handed to the strategy is the one opening the birth\'s term month when backward, the next one when forward (one harness per polarity x gender, arbitrary year pillar of that polarity and arbitrary governing term; ~9 min each, hence thorough tier; the quick tier executes the rule on 14 births per year)'),
+    ],
     'V': [
         dict(id='c16_child_limit', template='verus/c16_child_limit.rs', twin_quick=True,
              twin=[('r.minute_count / 2 == abs_diff(term.ti(), birth_time.abs()),', 'r.minute_count / 2 == abs_diff(term.ti(), birth_time.abs()) + 1,')],
